@@ -410,6 +410,24 @@ var cueRunaway = regexp.MustCompile(`(\]?)\s*\*\s*([0-9_]{9,})|([0-9_]{9,})\s*\*
 // immediately, which the decoder must turn into an error), so it is kept.
 func cueDangerous(data []byte) bool {
 	s := string(data)
+	// builtins that materialise a value whose size the document chooses
+	// (list.Range(0, 5000000, 1), list.Repeat, strings.Repeat ...): the same
+	// run-away evaluation as a multiplication by a large count
+	if strings.Contains(s, "Range") || strings.Contains(s, "Repeat") {
+		digits := 0
+		for i := 0; i < len(s); i++ {
+			if s[i] >= '0' && s[i] <= '9' || s[i] == '_' {
+				if s[i] != '_' {
+					digits++
+				}
+				if digits >= 5 {
+					return true
+				}
+			} else if s[i] != '.' && s[i] != 'e' && s[i] != 'E' && s[i] != '+' {
+				digits = 0
+			}
+		}
+	}
 	isNumRune := func(r byte) bool { return r >= '0' && r <= '9' || r == '_' }
 	isTokRune := func(r byte) bool {
 		return isNumRune(r) || r >= 'a' && r <= 'z' || r >= 'A' && r <= 'Z' || r == '.' || r == '"' || r == '\'' || r == ']' || r == ')' || r == '[' || r == '(' || r == '#' || r == '`'
